@@ -303,9 +303,43 @@ def run_shard(shard, tier, acc):
             return f
 
         inputs = [mk(v, k, m) for v in vals for k in ("year", "title") for m in (None, "{", '"', "no-enclosing")]
-        leak.run(lambda: RemoveEnclosingMiddleware(allow_inplace_modification=False), inputs, acc, "RemoveEnclosing")
+        from .. import hostile
+
+        leak.run(lambda: RemoveEnclosingMiddleware(allow_inplace_modification=False), inputs, acc, "RemoveEnclosing", poison=hostile.libraries(), judge=leak.copy_judge)
         for opts in OPTIONS:
-            leak.run(lambda o=opts: AddEnclosingMiddleware(reuse_previous_enclosing=o[1], enclose_integers=o[2], default_enclosing=o[0], allow_inplace_modification=False), inputs, acc, f"AddEnclosing{opts}")
+            leak.run(lambda o=opts: AddEnclosingMiddleware(reuse_previous_enclosing=o[1], enclose_integers=o[2], default_enclosing=o[0], allow_inplace_modification=False), inputs, acc, f"AddEnclosing{opts}", poison=hostile.libraries(), judge=leak.copy_judge)
+        # history on ONE library: strip once, then add back several times from the same stripped library (copy mode):
+        # every add sees the same records, so every result is the same
+        for v in vals:
+            for d0 in ("{", '"'):
+                src = Library([Entry("article", "k", [Field("title", v), Field("year", v)]), String("s", v)])
+                stripped = RemoveEnclosingMiddleware(allow_inplace_modification=False).transform(src)
+                snap = canon(stripped)
+                outs = []
+                for reuse in (False, True, True, False, True):
+                    acc.trace()
+                    acc.case(nontrivial_key=("addhist", v, d0, len(outs)))
+                    try:
+                        o = AddEnclosingMiddleware(reuse_previous_enclosing=reuse, enclose_integers=False, default_enclosing=d0, allow_inplace_modification=False).transform(stripped)
+                        outs.append((reuse, canon(o)))
+                    except Exception as ex:
+                        acc.violation({"oracle": "add_no_exception", "exception": type(ex).__name__, "kind": "history"}, {"case": {"add_history": v, "default": d0}, "observed": repr(ex), "expected": "no exception"})
+                        break
+                    if canon(stripped) != snap:
+                        acc.violation(
+                            {"oracle": "copy_mode_add_leaves_its_input", "reuse": reuse},
+                            {"case": {"add_history": v, "default": d0, "call": len(outs)}, "observed": "the stripped library (values or recorded enclosings) changed", "expected": "unchanged"},
+                        )
+                        break
+                else:
+                    by = {}
+                    for reuse, c in outs:
+                        if by.setdefault(reuse, c) != c:
+                            acc.violation(
+                                {"oracle": "repeated_add_same_result", "reuse": reuse},
+                                {"case": {"add_history": v, "default": d0}, "observed": "a later add from the same library differs from an earlier one", "expected": "identical results"},
+                            )
+                            break
     elif kind == "specials":
         for v in SPECIALS:
             check_value(v, acc, seen)
